@@ -187,6 +187,18 @@ TextToNum(s) ==
             IN IF e > 4 \/ e < -4 THEN Open
                ELSE IF e >= 0 THEN Rat(sm * Pow10(e), 1) ELSE Rat(sm, Pow10(-e))
 
+\* case mapping of code points (used by the coercions and by the order on texts)
+UpCP(c) == IF (c >= 97 /\ c <= 122) \/ (c >= 224 /\ c <= 254 /\ c # 247) THEN c - 32 ELSE c
+LowCP(c) == IF (c >= 65 /\ c <= 90) \/ (c >= 192 /\ c <= 222 /\ c # 215) THEN c + 32 ELSE c
+\* code points whose case mapping the specification fixes: Latin-1 except the
+\* two whose upper case leaves Latin-1 or changes length, plus symbols known
+\* to be caseless (euro sign, a CJK ideograph, an emoji); anything else: Open
+CaseKnown(c) == (c <= 254 /\ c # 181 /\ c # 223) \/ c \in {8364, 20013, 128512}
+CaseKnownSeq(s) == \A i \in 1..Len(s) : CaseKnown(s[i])
+UpperSeq(s) == [i \in 1..Len(s) |-> UpCP(s[i])]
+LowerSeq(s) == [i \in 1..Len(s) |-> LowCP(s[i])]
+
+
 (* ---------------------------------------------------------------------- *)
 (* coercions (C08)                                                         *)
 (* ---------------------------------------------------------------------- *)
@@ -196,7 +208,9 @@ ToNum(x) ==
       [] x.t = "blank" -> Whole(0)
       [] x.t = "date"  -> IF x.fn = 0 THEN Whole(x.s)
                           ELSE IF x.s <= 1000000000 \div x.fd THEN Rat(x.s * x.fd + x.fn, x.fd) ELSE Open
-      [] x.t = "txt"   -> LET r == TextToNum(x.v) IN IF r.t = "notnum" THEN Err("#VALUE!") ELSE r
+      \* (text spelling a logical value: the library interprets it in arithmetic on purpose, Excel says #VALUE! - left open)
+      [] x.t = "txt"   -> IF UpperSeq(x.v) \in {TRUEcodes, FALSEcodes} THEN Open
+                          ELSE LET r == TextToNum(x.v) IN IF r.t = "notnum" THEN Err("#VALUE!") ELSE r
       [] x.t = "err"   -> x
       [] OTHER         -> Open
 
@@ -233,12 +247,16 @@ AnyOpen(args) == \E i \in 1..Len(args) : args[i].t = "open"
 NumBin(a, b, F(_, _)) ==
     IF a.t = "open" THEN Open            \* an undetermined left operand may itself be an error that would win
     ELSE IF a.t = "err" THEN a
+    ELSE IF a.t = "anyerr" THEN a
+    \* the right operand is "some error" (which one was left open): the result is some error
+    ELSE IF b.t = "anyerr" THEN (IF a.t = "arr" \/ ToNum(a).t = "open" THEN Open ELSE b)
     \* an error operand on the right is the result - unless the left operand would itself fail to convert,
     \* in which case only "an error" is demanded (which of the two is reported first is left open)
     ELSE IF b.t = "err" THEN (IF a.t = "arr" THEN Open ELSE IF ToNum(a).t = "err" THEN AnyErr ELSE IF ToNum(a).t = "open" THEN Open ELSE b)
     ELSE IF b.t = "open" \/ a.t = "arr" \/ b.t = "arr" THEN Open
     ELSE LET x == ToNum(a)  y == ToNum(b) IN
-         IF x.t = "err" THEN x
+         \* (the left operand fails to convert and nothing is known about the right one: an error for sure, which one is open)
+         IF x.t = "err" THEN (IF y.t = "open" THEN AnyErr ELSE x)
          ELSE IF y.t = "err" THEN y
          ELSE IF x.t = "open" \/ y.t = "open" THEN Open
          ELSE F(x, y)
@@ -277,16 +295,6 @@ OpConcat(a, b) ==
 (* ---------------------------------------------------------------------- *)
 (* the total order on values (C09)                                         *)
 (* ---------------------------------------------------------------------- *)
-UpCP(c) == IF (c >= 97 /\ c <= 122) \/ (c >= 224 /\ c <= 254 /\ c # 247) THEN c - 32 ELSE c
-LowCP(c) == IF (c >= 65 /\ c <= 90) \/ (c >= 192 /\ c <= 222 /\ c # 215) THEN c + 32 ELSE c
-\* code points whose case mapping the specification fixes: Latin-1 except the
-\* two whose upper case leaves Latin-1 or changes length, plus symbols known
-\* to be caseless (euro sign, a CJK ideograph, an emoji); anything else: Open
-CaseKnown(c) == (c <= 254 /\ c # 181 /\ c # 223) \/ c \in {8364, 20013, 128512}
-CaseKnownSeq(s) == \A i \in 1..Len(s) : CaseKnown(s[i])
-UpperSeq(s) == [i \in 1..Len(s) |-> UpCP(s[i])]
-LowerSeq(s) == [i \in 1..Len(s) |-> LowCP(s[i])]
-
 RECURSIVE SeqLt(_, _)
 SeqLt(a, b) == \* lexicographic on code points
     IF Len(b) = 0 THEN FALSE
